@@ -851,8 +851,20 @@ fn record(path: &str, seed: u64, n: usize, kinds: &[String]) {
                     }
                 }
             }
+            // the controller assembled from primitive streams: the same reference and the same allowance (another association of the
+            // same formula may differ from the monolithic controller in the last bits; both must agree with the textbook value)
+            let mut cnum: Vec<Value> = vec![];
+            if let (Some(cm), "some", "PID") = (composite.as_ref(), cat.as_str(), kind) {
+                if let (Some(refv), Obs::Present { vals, .. }) = (reference(kind, &par, &hist, w_ticks * tick, cur_cmd), &get(cm)) {
+                    let eps = f32::EPSILON as f64;
+                    let (rv, mag) = refv[0];
+                    let bound = (hist.len() as f64 / 3.0 + 3.0) * 2.0 * eps * (mag + rv.abs()) + f32::MIN_POSITIVE as f64;
+                    let (e, b) = scaled_err(vals[0] as f64 - rv, bound);
+                    cnum.push(json!({"err": e, "bound": b}));
+                }
+            }
             writeln!(f, "{}", json!({
-                "k": "ev", "ev": evj, "inkey": inkey, "num": num, "ret": ret_json(&r), "out": out_json(&o, base, tick, 1.0), "get2": out_json(&o2, base, tick, 1.0),
+                "k": "ev", "ev": evj, "inkey": inkey, "num": num, "cnum": cnum, "ret": ret_json(&r), "out": out_json(&o, base, tick, 1.0), "get2": out_json(&o2, base, tick, 1.0),
                 "since_none": cj(&cands[0]), "since_err": cj(&cands[1]), "since_set": cj(&cands[2]),
                 "skip": out_json(&get(&skip), base, tick, 1.0),
                 "shift": out_json(&get(&shifted), base + shift, tick, 1.0),
